@@ -124,6 +124,11 @@ func runC02WT(cfg Config, r *Result) {
 			Empties: i%4 == 0, Tests: i%7 == 0, Specials: true, Gfx: true, MapLitPure: true})
 		progs = append(progs, src)
 	}
+	for i := 0; i < cfg.N(500, 5000); i++ {
+		// untyped empty literals next to every kind of operand / declared type (harness/c02empty.go)
+		src, _ := c02EmptyProgram(cfg.Rng)
+		progs = append(progs, src)
+	}
 	for _, src := range progs {
 		prog, perr := safeParse(src)
 		if perr != nil {
